@@ -372,7 +372,17 @@ def stats_expiry_session(col, binpath, rng, tag, scratch):
         sess.wait_connected()
         if not wait_title(k1, 30):
             raise Inconclusive(f"group A ({k1} aircraft) never fully shown")
-        if not wait_title(0, FT + 25):
+        if not wait_title(0, FT + 45):
+            if not sess.p.alive():
+                raise Inconclusive("radar gone")
+            # The feed is silent and nobody touches the keyboard: the screen still has to follow the
+            # tracker. A key without a function tells a stale screen from a tracker that did not expire.
+            shown = sess.tab_title_count()
+            sess.key("x")
+            if wait_title(0, 10):
+                col.count("expiry_sessions")
+                col.add("C18", "C18|expired_aircraft_still_shown", f"{FT + 45} s after the last frame (--filter-time {FT}) the tab title still counted {shown} aircraft and dropped to 0 as soon as a key was pressed: the screen did not follow the tracker while the feed was silent", inp)
+                return
             raise Inconclusive("group A did not expire")
         sess.srv.release("send_b")
         if not wait_title(k2, 30):
